@@ -17,8 +17,6 @@ Lemma rup_loop_step f start tmo buf c :
   end.
 Proof. reflexivity. Qed.
 
-Lemma chunk_pos : 0 < READ_CHUNK_SIZE.
-Proof. unfold READ_CHUNK_SIZE. lia. Qed.
 
 (* whenever the loop returns normally: what it consumed is exactly `data`, everything received
    (buf ++ data) satisfies the prompt test at position k, the result is the text before k,
